@@ -2,7 +2,7 @@
    line, `name field field ...`; all parsing and printing is done here, in Gallina, so the OCaml
    driver only moves characters.  Field kinds: decimal number, hex byte string, and lists
    `L:hex:hex...` (`L` = empty list, `L:` = one empty string). *)
-From Scrapli Require Import Bytes Regex PlatformTypes Generated Generic Netconf Channel Replay Queue Telnet.
+From Scrapli Require Import Bytes Regex PlatformTypes Generated Generic Netconf Channel Replay Queue Telnet NcSession Session Network.
 Open Scope N_scope.
 
 Definition COLON : N := 58.
@@ -29,6 +29,7 @@ Definition fields (line : bytes) : list bytes := split_on SP line.
 Definition unfields (fs : list bytes) : bytes := join [SP] fs.
 
 Definition nthf (n : nat) (fs : list bytes) : bytes := nth n fs [].
+Definition hexf (n : nat) (ps : list bytes) : bytes := of_hex (nthf n ps).
 
 Fixpoint zip {A B} (a : list A) (b : list B) : list (A * B) :=
   match a, b with
@@ -127,12 +128,24 @@ Definition parse_call (cfg : chan_cfg) (spec : bytes) : prog bytes :=
   if beqb kind (bs "in") then
     let o := parse_flags (nthf 2 ps) default_opts in
     send_input cfg (of_hex (nthf 1 ps)) (mkOpts (o_strip o) (o_eager o) (o_exact o) (names_to_res (nthf 3 ps)) [])
+  else if beqb kind (bs "cb") then
+    let parse_cb (f : bytes) : callback :=
+      let q := split_on SLASH f in
+      let fl := nthf 3 q in
+      mkCb (of_hex (nthf 0 q)) (of_hex (nthf 1 q))
+           (if beqb (nthf 2 q) [45] then None else lookup_rx (nthf 2 q) regex_table)
+           (mem_byte 105 fl) (mem_byte 114 fl) (mem_byte 111 fl) (mem_byte 99 fl) (mem_byte 116 fl)
+           (if beqb (nthf 4 q) [45] then None else Some (of_hex (nthf 4 q))) in
+    send_with_callbacks cfg (of_hex (nthf 1 ps))
+                        (match nthf 2 ps with [] => [] | f => map parse_cb (split_on SEMI f) end)
   else if beqb kind (bs "gp") then get_prompt cfg
   else if beqb kind (bs "ia") then
     let o := parse_flags (nthf 1 ps) default_opts in
     let evs := match nthf 3 ps with [] => [] | f => map parse_event (split_on SEMI f) end in
     send_interactive cfg evs (mkOpts (o_strip o) (o_eager o) (o_exact o) [] (names_to_res (nthf 2 ps)))
   else Fail EOperation.
+
+Definition fun_fail : prog bytes := Fail EOperation.
 
 Definition parse_lev (t : bytes) : list lev :=
   match t with
@@ -170,11 +183,12 @@ Definition run_chan (fs : list bytes) : list bytes :=
   match mk_cfg fs with
   | None => [bs "no-such-prompt-pattern"]
   | Some cfg =>
-      let calls := map (parse_call cfg) (parse_list (nthf 5 fs)) in
+      let calls := map (fun spec => (fun _ : list (N * bytes) => parse_call cfg spec)) (parse_list (nthf 5 fs)) in
       let '(s, outs) := replay_session cfg (of_hex (nthf 4 fs)) (parse_log (nthf 6 fs)) calls in
       [ join [COMMA] (map emit_out outs);
         (if desynced s then bs "desync" else bs "sync");
-        emit_wlog (s_wlog s) ]
+        emit_wlog (s_wlog s);
+        emit_list (flat_map (fun n : N * bytes => if fst n =? TAG_CB then [snd n] else []) (s_notes s)) ]
   end.
 
 (* ---- queue histories: q20 <history>  with tokens E<hex byte> D A R G, comma separated.
@@ -213,6 +227,147 @@ Definition run_c15 (fs : list bytes) : list bytes :=
   let s := run_telnet (of_hex (nthf 1 fs)) in
   [to_hex (concat (t_replies s)); to_hex (t_data s)].
 
+(* ---- network driver sessions: net depth ret start default secondary levels ops log ---- *)
+Definition US : N := 31.   (* separator of multi-results *)
+
+Definition parse_level (spec : bytes) : bytes * level :=
+  let ps := split_on BAR spec in
+  let name := hexf 0 ps in
+  let pat := match lookup_rx (nthf 1 ps) regex_table with Some r => r | None => RFail end in
+  let nc := match nthf 2 ps with [] => [] | f => map of_hex (split_on COMMA f) end in
+  let ep := match lookup_rx (nthf 7 ps) regex_table with Some r => r | None => REps end in
+  (name, mkLevel name (nthf 1 ps) pat nc (hexf 3 ps) (hexf 4 ps) (hexf 5 ps) (parse_bool (nthf 6 ps)) (nthf 7 ps) ep).
+
+Fixpoint alt_all (l : list re) : re :=
+  match l with [] => RFail | [r] => r | r :: t => RAlt r (alt_all t) end.
+
+Fixpoint last_cur (notes : list (N * bytes)) (acc : bytes) : bytes :=
+  match notes with [] => acc | (t, d) :: r => last_cur r (if t =? TAG_CUR then d else acc) end.
+
+Definition hexlist (f : bytes) : list bytes := match f with [] => [] | _ => map of_hex (split_on COMMA f) end.
+
+Definition parse_netcall (net : netcfg) (spec : bytes) : call := fun notes =>
+  let cached := last_cur notes [] in
+  let ps := split_on BAR spec in
+  let k := nthf 0 ps in
+  let join_res (p : prog (list bytes)) : prog bytes := bind p (fun rs => Ret (join [US] rs)) in
+  if beqb k (bs "cmd") then net_send_command net cached (hexf 1 ps) (parse_flags (nthf 2 ps) default_opts)
+  else if beqb k (bs "cmds") then join_res (net_send_commands net cached (hexlist (nthf 1 ps)) (parse_flags (nthf 2 ps) default_opts))
+  else if beqb k (bs "cfgs") then join_res (net_send_configs net cached (hexf 1 ps) (hexlist (nthf 2 ps)) default_opts)
+  else if beqb k (bs "acq") then bind (acquire_priv net cached (hexf 1 ps)) (fun _ => Ret [])
+  else if beqb k (bs "gp") then get_prompt (n_chan net)
+  else if beqb k (bs "ia") then
+    let o := parse_flags (nthf 2 ps) default_opts in
+    let evs := match nthf 4 ps with [] => [] | f => map parse_event (split_on SEMI f) end in
+    net_send_interactive net cached (hexf 1 ps) evs (mkOpts (o_strip o) (o_eager o) (o_exact o) [] (names_to_res (nthf 3 ps)))
+  else fun_fail.
+
+Definition run_net (fs : list bytes) : list bytes :=
+  let levels := map parse_level (parse_list (nthf 6 fs)) in
+  let joined := alt_all (map (fun kl => lv_pattern (snd kl)) levels) in
+  let cfg := mkCfg (N.to_nat (parse_num (nthf 1 fs))) joined (of_hex (nthf 2 fs)) 0%Z in
+  let net := mkNet levels (of_hex (nthf 4 fs)) (of_hex (nthf 5 fs)) cfg (fun _ l => l) (fun l => l) in
+  let calls := map (parse_netcall net) (parse_list (nthf 7 fs)) in
+  let '(s, outs) := replay_session cfg (of_hex (nthf 3 fs)) (parse_log (nthf 8 fs)) calls in
+  [ join [COMMA] (map emit_out outs);
+    (if desynced s then bs "desync" else bs "sync");
+    emit_wlog (s_wlog s);
+    to_hex (last_cur (s_notes s) []) ].
+
+(* ---- C01 hypotheses: c01hyp depth prompt ret start flags cmds echos resps results -> 1|0 ----
+   evaluates [session_ok] (the theorem's hypothesis) on the exchanges observed in a run *)
+Fixpoint first_true (f : nat -> bool) (n : nat) (i : nat) : nat :=
+  match n with O => i | S n' => if f i then i else first_true f n' (S i) end.
+
+Fixpoint zip4 (a b c d : list bytes) : list (bytes * bytes * bytes * bytes) :=
+  match a, b, c, d with
+  | x :: a', y :: b', z :: c', w :: d' => (x, y, z, w) :: zip4 a' b' c' d'
+  | _, _, _, _ => []
+  end.
+
+Definition run_c01hyp (fs : list bytes) : list bytes :=
+  match mk_cfg fs with
+  | None => [bs "no-such-prompt-pattern"]
+  | Some cfg =>
+      let start := of_hex (nthf 4 fs) in
+      let o := parse_flags (nthf 5 fs) default_opts in
+      let xs := map (fun q : bytes * bytes * bytes * bytes =>
+                       let '(c, e, r, res) := q in
+                       let T := drop_cr r in
+                       let lo := first_true (fun j => cond_holds cfg (prompt_cond cfg o) (firstn j T)) (S (length T)) 0 in
+                       mkEx c e r (length (drop_cr e)) lo res)
+                    (zip4 (parse_list (nthf 6 fs)) (parse_list (nthf 7 fs)) (parse_list (nthf 8 fs)) (parse_list (nthf 9 fs))) in
+      [emit_bool (negb (mem_byte 27 start) && session_ok cfg o [drop_cr start] xs)]
+  end.
+
+(* ---- NETCONF sessions: nc pref force xh ops log ---- *)
+
+Definition parse_ncop (spec : bytes) : nc_op :=
+  let ps := split_on BAR spec in
+  let k := nthf 0 ps in
+  if beqb k (bs "get") then OGet (hexf 1 ps) (hexf 2 ps)
+  else if beqb k (bs "getconfig") then OGetConfig (hexf 1 ps) (hexf 2 ps) (hexf 3 ps) (hexf 4 ps)
+  else if beqb k (bs "edit") then OEditConfig (hexf 1 ps) (hexf 2 ps)
+  else if beqb k (bs "copy") then OCopyConfig (hexf 1 ps) (hexf 2 ps)
+  else if beqb k (bs "delete") then ODeleteConfig (hexf 1 ps)
+  else if beqb k (bs "lock") then OLock (hexf 1 ps)
+  else if beqb k (bs "unlock") then OUnlock (hexf 1 ps)
+  else if beqb k (bs "validate") then OValidate (hexf 1 ps)
+  else if beqb k (bs "commit") then OCommit (parse_bool (nthf 1 ps)) (parse_num (nthf 2 ps)) (hexf 3 ps) (hexf 4 ps)
+  else if beqb k (bs "discard") then ODiscard
+  else ORaw (hexf 1 ps).
+
+Definition parse_nlev (t : bytes) : list nlev :=
+  match t with
+  | 82 :: h => [NR (of_hex h)]
+  | 87 :: h => [NW (of_hex h)]
+  | [67] => [NCall] | [68] => [NDeadline] | [88] => [NErr]
+  | _ => []
+  end.
+
+Definition emit_z (z : Z) : bytes :=
+  if (z <? 0)%Z then 45 :: print_dec (Z.to_N (- z)) else print_dec (Z.to_N z).
+
+Definition emit_rpc (r : rpc_out) : bytes :=
+  match r with
+  | ROk id raw framed res rpce pe =>
+      join [COLON] [bs "ok"; emit_z id; to_hex raw; to_hex framed; to_hex res; emit_bool rpce; emit_bool pe]
+  | RTimeout _ => bs "timeout" | RError _ => bs "error" | RBuildErr => bs "builderr"
+  | RNoReply _ => bs "noreply" | RPanic => bs "panic"
+  end.
+
+(* the hello phase: ReadUntilPrompt with the 1.0 delimiter over the chunks read before the first
+   call; what is left over goes to the NETCONF read loop *)
+Fixpoint take_hello (cfg : chan_cfg) (acc : bytes) (log : list nlev) : option bytes * list nlev :=
+  match log with
+  | NR c :: t => let acc' := acc ++ c in
+                 if cond_holds cfg CPrompt acc' then (Some acc', t) else take_hello cfg acc' t
+  | NCall :: _ => (None, log)
+  | e :: t => let '(r, t') := take_hello cfg acc t in (r, e :: t')
+  | [] => (None, [])
+  end.
+
+Definition run_nc (fs : list bytes) : list bytes :=
+  let p := let f := nthf 1 fs in if beqb f (bs "10") then Pref10 else if beqb f (bs "11") then Pref11 else PrefNone in
+  let force := parse_bool (nthf 2 fs) in
+  let xh := parse_bool (nthf 3 fs) in
+  let ops := map parse_ncop (parse_list (nthf 4 fs)) in
+  let log := if beqb (nthf 5 fs) [45] then [] else flat_map parse_nlev (split_on COMMA (nthf 5 fs)) in
+  let cfg := mkCfg default_prompt_search_depth rx_ncd_v1Dot0Delim default_return_char 0%Z in
+  match take_hello cfg [] log with
+  | (None, _) => [bs "open:nohello"]
+  | (Some hb, rest) =>
+      match nc_open hb p with
+      | OpenNetconfErr => [bs "open:netconf"]
+      | OpenOther => [bs "open:other"]
+      | OpenOk v caps sid ch =>
+          let '(s, outs) := nc_session v force xh ops rest in
+          [ join [COLON] [bs "open:ok"; (match v with V10 => bs "1.0" | V11 => bs "1.1" end); emit_list caps; emit_z sid];
+            join [COMMA] (map emit_rpc outs);
+            emit_list (n_writes s) ]
+      end
+  end.
+
 Definition dispatch (fs : list bytes) : list bytes :=
   let name := nthf 0 fs in
   if beqb name (bs "c13") then run_c13 fs
@@ -221,6 +376,9 @@ Definition dispatch (fs : list bytes) : list bytes :=
   else if beqb name (bs "chan") then run_chan fs
   else if beqb name (bs "q20") then run_q20 fs
   else if beqb name (bs "c15") then run_c15 fs
+  else if beqb name (bs "nc") then run_nc fs
+  else if beqb name (bs "c01hyp") then run_c01hyp fs
+  else if beqb name (bs "net") then run_net fs
   else [bs "unknown-case"].
 
 Definition run_line (line : bytes) : bytes := unfields (dispatch (fields line)).
